@@ -622,6 +622,12 @@ private:
    /** Optimization flag:  set true the first time we index a node */
    bool _indexingPresent;
 
+   /** The session that PassMessageCallbackAux() most recently passed a Message to during the current traversal (or NULL).
+     * Since a traversal visits all of a session's nodes consecutively, this is all we need to avoid passing the
+     * same Message to a session more than once when several of that session's nodes match.  Never dereferenced.
+     */
+   const StorageReflectSession * _mostRecentPassMessageTarget;
+
    /** The number of database nodes we currently have created */
    uint32 _currentNodeCount;
 
